@@ -150,21 +150,17 @@ def loops_chunk(cases, extra):
 
 
 def classify_missed(prog, rd):
-    """Canonical cell of a missed read: 'assigned-inside-for-body' when some assignment of the variable before the
-    read is enclosed by a `for` loop (whose body TIFA treats as always executed, which makes the variable look
-    definitely assigned afterwards), else 'other'."""
-    v = rd["v"]
-    stack = []
-    inside_for = []
-    for k, tok in enumerate(prog, 1):
-        if tok["t"] in ("I", "D"):
-            stack.append(tok["t"])
-        elif tok["t"] == "L":
-            stack.append(tok["w"])
-        elif tok["t"] == "X":
-            stack.pop()
-        elif tok["t"] == "A" and tok["v"] == v and k < rd["tok"]:
-            inside_for.append(any(s in ("forE", "forU", "forN") for s in stack))
-    if any(inside_for):
-        return "assigned-inside-for-body"
+    """Canonical cell of a missed read, decided CAUSALLY: the same program with every `for` loop replaced by an `if` on
+    an opaque condition is analysed again; when TIFA does report the read there, the miss is due to its treatment of
+    `for` bodies as always executed (the recorded design choice) -> 'assigned-inside-for-body'; otherwise 'other'."""
+    if not any(t["t"] == "L" and t.get("w") in ("forE", "forU", "forN") for t in prog):
+        return "other"
+    as_ifs = [({"t": "I"} if (t["t"] == "L" and t.get("w") in ("forE", "forU", "forN")) else t) for t in prog]
+    try:
+        src, where = render_loops(as_ifs)
+        an = analyse(src)
+        if an["success"] and verdict_at(an, rd["v"], where[rd["tok"]]) != "none":
+            return "assigned-inside-for-body"
+    except Exception:
+        pass
     return "other"
